@@ -49,11 +49,21 @@ Definition expect_number (p : pst) : outcome unit :=
 Definition push_stack (x : sk) (p : pst) : pst := mkPS (ptoks p) (x :: pstack p).
 
 (* ---- numbers of a parameter definition -------------------------------------------------------------- *)
-Definition xmul_div100 (v l : xnum) : xnum :=      (* value * limit / 100 on finite numbers *)
+(* sign of a number as IEEE multiplication sees it: Some true = positive, Some false = negative, None = zero or NaN *)
+Definition xsign (x : xnum) : option bool :=
+  match x with
+  | Fin q => if Qlt_le_dec 0 q then Some true else if Qlt_le_dec q 0 then Some false else None
+  | PInf => Some true | NInf => Some false | NaN => None
+  end.
+Definition xmul_div100 (v l : xnum) : xnum :=      (* value * limit / 100 *)
   match v, l with
   | Fin a, Fin b => Fin (fl53 (fl53 (a * b) / 100))     (* two correctly rounded binary64 operations *)
   | NaN, _ | _, NaN => NaN
-  | _, _ => NaN                                     (* infinities do not occur: numbers come from finite tokens, saturated ones are excluded by the generator *)
+  | _, _ =>                                         (* an infinite factor (a number token beyond the double range reads as inf): inf * 0 = nan *)
+      match xsign v, xsign l with
+      | Some s1, Some s2 => if Bool.eqb s1 s2 then PInf else NInf
+      | _, _ => NaN
+      end
   end.
 
 Definition str_inf : str := [105; 110; 102]%N.
